@@ -19,7 +19,7 @@ func genC06(rt *rapid.T) World {
 	o.constructed = 3
 	o.interference = false
 	o.faults = false
-	o.weights = opWeights{OpReconcile: 10, OpKubelet: 5, OpSettle: 4, OpEditReplicas: 3, OpScaleInAt: 4, OpEditSlotRemove: 3, OpEditSlotAdd: 1, OpRefreshAll: 1, OpUserDeletePod: 1, OpEditTemplate: 1, OpClaimRemove: 2}
+	o.weights = opWeights{OpReconcile: 10, OpKubelet: 5, OpSettle: 4, OpEditReplicas: 3, OpScaleInAt: 4, OpEditSlotRemove: 3, OpEditSlotAdd: 1, OpRefreshAll: 1, OpUserDeletePod: 1, OpEditTemplate: 1, OpClaimRemove: 2, OpClaimLost: 2}
 	w := genWorld(rt, o)
 	w.Spec.Claims = rapid.SampledFrom([]int{0, 1, 1, 2, 2, 3}).Draw(rt, "claims06")
 	w.Spec.SelExpr = rapid.IntRange(0, 4).Draw(rt, "selExpr") == 0
